@@ -46,8 +46,8 @@ TREES = {
 # exactly 2^k matching entries (internal batches and buffers have power-of-two sizes)
 for _k in (10, 11, 12, 13):
     TREES['pow%d' % _k] = {'f%05d' % i: F(1 + i % 5) for i in range(2 ** _k)}
-ARGS = ['size', 'hardlinks', 'uid', 'line_count', 'length(name)', 'size - 10', 'size / 2', '0 - length(name)']
-EXPR_ARGS = ('size - 10', 'size / 2', '0 - length(name)')        # values that are negative or fractional
+ARGS = ['size', 'hardlinks', 'uid', 'line_count', 'length(name)', 'size - 10', 'size / 2', '0 - length(name)', '-size', '-length(name)', '1', '2 + 3']
+EXPR_ARGS = ('size - 10', 'size / 2', '0 - length(name)', '-size', '-length(name)', '1', '2 + 3')        # values that are negative or fractional
 WHERES = [('none', None, lambda e: True), ('all', 'size gte 0', lambda e: True),
           ('files', 'is_file = true', lambda e: e['file']), ('some', 'name like %.txt', lambda e: e['name'].endswith('.txt')),
           ('nomatch', 'size gt 9000000000000000', lambda e: False), ('large', 'size gt 1000000', lambda e: e['size'] > 1000000),
@@ -135,7 +135,7 @@ def entries(root):
                         lc += b.count(b'\n')
             res.append({'name': n, 'file': isf, 'size': st.st_size, 'hardlinks': st.st_nlink, 'uid': st.st_uid,
                         'line_count': lc, 'length(name)': len(n), 'size - 10': st.st_size - 10, 'size / 2': Fraction(st.st_size, 2),
-                        '0 - length(name)': -len(n)})
+                        '0 - length(name)': -len(n), '-size': -st.st_size, '-length(name)': -len(n), '1': 1, '2 + 3': 5})
     return res
 
 
